@@ -48,6 +48,7 @@ from explorerscript.ssb_converting.ssb_special_ops import (
     OP_END,
     OP_RETURN,
     OP_DUMMY_END,
+    OP_CALL,
 )
 
 logger = logging.getLogger(__name__)
@@ -153,7 +154,11 @@ class BlockWriteHandler(AbstractWriteHandler):
                 raise ValueError("Found end of branch, but no previous op...?")
             if (
                 previous_vertex["op"].op_code.name not in OPS_THAT_END_CONTROL_FLOW
-                and not isinstance(previous_vertex["op"], SsbLabelJump)
+                and (
+                    not isinstance(previous_vertex["op"], SsbLabelJump)
+                    # (a call comes back, the branch does not end with it)
+                    or (previous_vertex["op"].maybe_root is not None and previous_vertex["op"].root.op_code.name == OP_CALL)
+                )
                 and not isinstance(previous_vertex["op"], SsbLabel)
                 and not isinstance(previous_vertex["op"], SsbForeignLabel)
             ):
